@@ -177,6 +177,7 @@ pub fn explore_all(
 fn prop_prefix(prop: &str) -> &'static str {
     match prop {
         p if p.starts_with("C01") => "content",
+        "C03" => "durability",
         "C04" => "history",
         "C05" => "concurrency",
         _ => "progress",
